@@ -85,6 +85,8 @@ def run(ck: Checker, prog: Program, tier: str):
     from . import c08
     with ck.borrow(c08, "C05.R1+"):
         ck.guard(c08._r2, ck, prog)
+    from .common import check_identity_comparisons as _cic
+    ck.guard(_cic, ck, prog, "C05.R1", "C05")
 
 
 def _single_window_guard(ck: Checker, prog: Program, cls):
